@@ -151,6 +151,15 @@ def make_param(interp: Interp, st: St, name, kind):
     if kind == "iterD":
         t = ctx.fresh_val(name + "_seq")
         return V("iter", SeqIter(t, elem_in_D=True), t=ctx.fresh_val(name))
+    if kind == "dict":
+        return new_symbolic_dict(interp, st, name, fresh=False)
+    if isinstance(kind, tuple) and kind[0] == "obj":
+        from .values import HObj
+        cls = kind[1](interp.current_module) if callable(kind[1]) and not isinstance(kind[1], type) else kind[1]
+        attrs = {a: make_param(interp, st, f"{name}_{a}", k) for a, k in kind[2].items()}
+        hid = new_id()
+        st.heap[hid] = HObj(cls, attrs, fresh=False)
+        return V("ref", hid)
     if isinstance(kind, tuple) and kind[0] == "tuple":
         return V("tuple", [make_param(interp, st, f"{name}{i}", k) for i, k in enumerate(kind[1])])
     if kind == "seqD":
@@ -159,6 +168,39 @@ def make_param(interp: Interp, st: St, name, kind):
         v = V("sym", t=t, tag=("seqD",))
         return v
     raise ValueError(f"unknown parameter kind {kind!r}")
+
+
+def new_symbolic_dict(interp, st, name, fresh=False):
+    """A well-formed symbolic dict: distinct keys in insertion order, `has` is exactly membership in the key sequence."""
+    from .values import HDict
+    ctx = interp.ctx
+    ctx.fresh += 1
+    f = ctx.fresh
+    kn = z3.Int(f"{name}_n!{f}")
+    karr = z3.Const(f"{name}_keys!{f}", z3.ArraySort(T.I, T.Val))
+    vals = z3.Const(f"{name}_vals!{f}", z3.ArraySort(T.Val, T.Val))
+    has = z3.Const(f"{name}_has!{f}", z3.ArraySort(T.Val, T.B))
+    st.assume(kn >= 0)
+    for fact in dict_wf_facts(kn, karr, has):
+        st.assume(fact)
+    hid = new_id()
+    st.heap[hid] = HDict(None, kn, karr, vals, has, fresh)
+    return V("ref", hid)
+
+
+def dict_wf_facts(kn, karr, has):
+    i, j = z3.Int("wi!"), z3.Int("wj!")
+    x = z3.Const("wx!", T.Val)
+    pos = z3.Function("keypos_" + str(has.get_id()), T.Val, T.I)
+    return [
+        z3.ForAll([i, j], z3.Implies(z3.And(0 <= i, i < j, j < kn), z3.Select(karr, i) != z3.Select(karr, j)),
+                  patterns=[z3.MultiPattern(z3.Select(karr, i), z3.Select(karr, j))]),
+        z3.ForAll([i], z3.Implies(z3.And(0 <= i, i < kn), z3.Select(has, z3.Select(karr, i))),
+                  patterns=[z3.Select(karr, i)]),
+        # skolemised converse: a present key sits at its position
+        z3.ForAll([x], z3.Implies(z3.Select(has, x), z3.And(0 <= pos(x), pos(x) < kn, z3.Select(karr, pos(x)) == x)),
+                  patterns=[z3.Select(has, x)]),
+    ]
 
 
 def solver_for(interp: Interp, timeout_ms, ground=False, supers=None):
@@ -322,6 +364,8 @@ def _run_instance(c, tree, mod, label, recv, rep, timeout_ms, lookup):
     rep.src = (sha, l0, l1)
     rep.decorators = extract.dropped_decorators(target_node)
     interp = Interp(ctx, vars(mod), contract_lookup=lookup, loop_specs=c.loops, unit_name=rep.name)
+    interp.current_module = mod
+    interp.method_disciplines = dict(c.methods)
     interp.loop_ordinals = extract.module_loop_ordinals(tree, target_node)
     st = St()
     starts = []      # (st, Closure, free env V's for spec)
